@@ -131,6 +131,9 @@ def parse_info(out):
         while stack and stack[-1][0] >= indent:
             stack.pop()
         path = "/".join([k for _, k in stack] + [key])
+        if path in vals:
+            vals.setdefault("__duplicates__", "")
+            vals["__duplicates__"] += path + ";"
         vals[path] = val.strip()
         stack.append((indent, key))
     return header, vals, capped
